@@ -639,6 +639,36 @@ def C04.checkPartial (s : Step) : List String :=
      | .error _ => [])
   | _ => []
 
+/-- C11, per-position clause on a REDUCING OpenPosition and on a PARTIAL ClosePosition: the position that
+    remains carries margin + realised PnL of the part given up − the funding owed since its checkpoint
+    (never below zero), i.e. the funding is charged when the owner trades on it -/
+def C11.checkCharge (s : Step) : List String :=
+  if !s.ok then [] else
+  let judge (v : Nat) : List String :=
+    let p := pos s.pre v s.sender
+    let p' := pos s.post v s.sender
+    let a := p.size.toInt.natAbs
+    let closed := (p.size.toInt - p'.size.toInt).natAbs
+    if a == 0 || !hasPos s.post v s.sender then [] else
+    (match Engine.positionNotionalPnl (preAt s).q s.pre.engine p .spot with
+     | .ok r =>
+       let realized := trunc (r.2.toInt * (closed : Int)) (a : Int)
+       let want := (p.margin : Int) + realized - fundingOwed s.pre p
+       chk ((p'.margin : Int) == (if want < 0 then 0 else want)) "funding-not-charged-on-reduce-or-partial-close"
+     | .error _ => [])
+  match engineMsg s with
+  | some (.closePosition v _) => judge v
+  | some (.openPosition v side margin lev _) =>
+    let p := pos s.pre v s.sender
+    let D := s.pre.engine.cfg.decimals
+    let flat := !hasPos s.pre v s.sender || p.size.isZero
+    let N := margin * lev / D
+    let reduces : Bool := match Engine.positionNotionalPnl (preAt s).q s.pre.engine p .spot with
+      | .ok r => decide (r.1 > N)
+      | .error _ => false
+    if !flat && p.direction != sideToDirection side && reduces then judge v else []
+  | _ => []
+
 /-- C13 on a single native deployment: a call that needs a definite amount of coins is accepted only with
     exactly that amount attached (what the cw20 deployment would pull) — DepositMargin: the deposited amount,
     and nothing in another denom -/
@@ -686,5 +716,9 @@ def allChecks (s : Step) : List (String × List String) :=
     enumerates); their refinement theorems are in `Perp/Props/SatExtra.lean` -/
 def extraChecks (s : Step) : List (String × List String) :=
   [("C16", C16.checkHist s), ("C04", C04.checkPartial s), ("C13", C13.checkNative s)]
+
+/-- clauses added after `extraChecks` was enumerated by `SatExtra.sat_extra` -/
+def extraChecks2 (s : Step) : List (String × List String) :=
+  [("C11", C11.checkCharge s)]
 
 end Perp.Spec
